@@ -173,6 +173,76 @@ func (x *extractor) describeLeaf(v ssa.Value, depth int) string {
 			if len(desc) == 1 {
 				return desc[0] + "." + strings.Join(names, ".")
 			}
+			// ... or decoded by an own helper: t, err := decodeT(i) with `var t T; t.Unmarshal(i.X()); return t, err`
+			// inside; the helper is described with its IE parameter standing for the IE handed to it
+			if len(desc) == 0 && depth < 6 {
+				sv, ok := aggregateSingleStore(al)
+				if !ok {
+					// the local's address may be kept for later reading (newAct = &act): one whole-value store is enough here
+					k := 0
+					for _, r := range *al.Referrers() {
+						if st, isSt := r.(*ssa.Store); isSt && st.Addr == ssa.Value(al) {
+							sv = st.Val
+							k++
+						}
+					}
+					ok = k == 1
+				}
+				if ok {
+					if ex, ok := sv.(*ssa.Extract); ok && ex.Index == 0 {
+						sv = ex.Tuple
+					}
+					if cl, ok := sv.(*ssa.Call); ok && !cl.Call.IsInvoke() {
+						sf := core.StaticFn(cl)
+						passesIE := false
+						for _, a := range cl.Call.Args {
+							if x.isCurrentIE(a) {
+								passesIE = true
+							}
+						}
+						if sf != nil && sf.Blocks != nil && x.p.IsOwnFn(sf) && passesIE {
+							x2 := newExtractor(x.p, sf)
+							inner := ""
+							agree := true
+							core.Instrs(sf, func(in ssa.Instruction) {
+								r, isR := in.(*ssa.Return)
+								if !isR || len(r.Results) == 0 {
+									return
+								}
+								ld, isLd := r.Results[0].(*ssa.UnOp)
+								if !isLd {
+									agree = false
+									return
+								}
+								a2, isAl := ld.X.(*ssa.Alloc)
+								if !isAl {
+									agree = false
+									return
+								}
+								// describe <a2>.<names> inside the helper
+								var fa ssa.Value = a2
+								d := ""
+								for _, rr := range *a2.Referrers() {
+									if c2, ok := rr.(*ssa.Call); ok {
+										if f := core.Callee(c2); f != nil && f.Name() == "Unmarshal" && core.CallRecv(c2) == fa {
+											if n := core.RecvNamed(f); n != nil {
+												d = n.Obj().Name() + ".Unmarshal(" + x2.describeLeaf(core.CallArgs(c2)[0], depth+1) + ")"
+											}
+										}
+									}
+								}
+								if d == "" || (inner != "" && inner != d) {
+									agree = false
+								}
+								inner = d
+							})
+							if agree && inner != "" {
+								return inner + "." + strings.Join(names, ".")
+							}
+						}
+					}
+				}
+			}
 		}
 	}
 	return ""
@@ -268,9 +338,53 @@ func (x *extractor) extract() ([]attrRow, []string) {
 		list   string
 	}
 	var walk func(n ast.Node, c ctx)
+	var condNameF func(e ast.Expr) string
+	var negateF func(string) string
+	var terminatesF func(*ast.BlockStmt) bool
+	var isErrCondF func(string) bool
 	walkList := func(ns []ast.Stmt, c ctx) {
 		for _, s := range ns {
 			walk(s, c)
+			// guard clause: `if cond { ...; return }` (no else) guards everything after it with !cond
+			// a switch with a default in which every clause but one leaves the sequence: what follows runs only
+			// under that clause's condition (same information as the guard clause `if !cond { return }`)
+			if sw, ok := s.(*ast.SwitchStmt); ok {
+				hasDefault, live := false, []*ast.CaseClause{}
+				for _, cl := range sw.Body.List {
+					cc := cl.(*ast.CaseClause)
+					if cc.List == nil {
+						hasDefault = true
+					}
+					if !terminatesF(&ast.BlockStmt{List: cc.Body}) {
+						live = append(live, cc)
+					}
+				}
+				isTypeSwitch := false
+				if sel, ok := sw.Tag.(*ast.SelectorExpr); ok && sel.Sel.Name == "Type" {
+					isTypeSwitch = true
+				}
+				if hasDefault && len(live) == 1 && live[0].List != nil && !isTypeSwitch {
+					var names []string
+					for _, e := range live[0].List {
+						names = append(names, types.ExprString(e))
+					}
+					g := strings.Join(names, ",")
+					if sw.Tag != nil {
+						g = types.ExprString(sw.Tag) + "==" + g
+					}
+					c.guards = append(append([]string{}, c.guards...), g)
+				}
+			}
+			if ifs, ok := s.(*ast.IfStmt); ok && ifs.Else == nil && terminatesF(ifs.Body) {
+				// selectors only (flag tests, ==, !=): an ordering test such as `period <= 0` is a validation of
+				// the value, not a choice between attribute shapes
+				if be, isBin := ast.Unparen(ifs.Cond).(*ast.BinaryExpr); isBin && be.Op != token.EQL && be.Op != token.NEQ {
+					continue
+				}
+				if cn := condNameF(ifs.Cond); !isErrCondF(cn) {
+					c.guards = append(append([]string{}, c.guards...), negateF(cn))
+				}
+			}
 		}
 	}
 	condName := func(e ast.Expr) string {
@@ -286,9 +400,46 @@ func (x *extractor) extract() ([]attrRow, []string) {
 			if y.Op == token.NOT {
 				return "!" + types.ExprString(y.X)
 			}
+		case *ast.BinaryExpr:
+			// a == b / a != b are written the way a tagged switch arm is: a==b, and !a==b
+			if y.Op == token.EQL {
+				return types.ExprString(y.X) + "==" + types.ExprString(y.Y)
+			}
+			if y.Op == token.NEQ {
+				return "!" + types.ExprString(y.X) + "==" + types.ExprString(y.Y)
+			}
 		}
 		return types.ExprString(e)
 	}
+	negate := func(cn string) string {
+		if strings.HasPrefix(cn, "!") {
+			return cn[1:]
+		}
+		return "!" + cn
+	}
+	// terminates: the statement list always leaves the enclosing statement sequence (return / continue / break / goto / panic)
+	terminates := func(b *ast.BlockStmt) bool {
+		if b == nil || len(b.List) == 0 {
+			return false
+		}
+		switch last := b.List[len(b.List)-1].(type) {
+		case *ast.ReturnStmt:
+			return true
+		case *ast.BranchStmt:
+			return last.Tok == token.CONTINUE || last.Tok == token.BREAK || last.Tok == token.GOTO
+		case *ast.ExprStmt:
+			if call, ok := last.X.(*ast.CallExpr); ok {
+				if id, ok := call.Fun.(*ast.Ident); ok && id.Name == "panic" {
+					return true
+				}
+			}
+		}
+		return false
+	}
+	isErrCond := func(cn string) bool {
+		return strings.Contains(cn, "err") || strings.HasSuffix(cn, "!= nil") || strings.HasSuffix(cn, "== nil") || strings.HasSuffix(cn, "==nil")
+	}
+	condNameF, negateF, terminatesF, isErrCondF = condName, negate, terminates, isErrCond
 	// variables holding a single attribute that are appended to a list later: a := nl.Attr{...}; l = append(l, a)
 	appendedTo := map[types.Object]string{}
 	ast.Inspect(fd.Body, func(n ast.Node) bool {
@@ -313,7 +464,25 @@ func (x *extractor) extract() ([]attrRow, []string) {
 			return
 		case *ast.FuncLit:
 			return
+		case *ast.BlockStmt:
+			walkList(y.List, c)
+			return
 		case *ast.AssignStmt:
+			// l := nl.AttrList{{...}, ...}: the literal's elements are the list's first rows
+			if len(y.Lhs) == 1 && len(y.Rhs) == 1 {
+				if id, ok := y.Lhs[0].(*ast.Ident); ok {
+					if lit, isLit := ast.Unparen(y.Rhs[0]).(*ast.CompositeLit); isLit {
+						if tv, ok := x.info.Types[lit]; ok && x.isNLType(tv.Type, "AttrList") {
+							c2 := c
+							c2.list = id.Name
+							for _, el := range lit.Elts {
+								walk(el, c2)
+							}
+							return
+						}
+					}
+				}
+			}
 			if len(y.Lhs) == 1 && len(y.Rhs) == 1 {
 				if id, ok := y.Lhs[0].(*ast.Ident); ok {
 					if l, ok := appendedTo[x.info.ObjectOf(id)]; ok {
@@ -360,7 +529,7 @@ func (x *extractor) extract() ([]attrRow, []string) {
 			walk(y.Init, c)
 			cn := condName(y.Cond)
 			// conditions that only test an error / nil are not guards of the attribute content
-			isErr := strings.Contains(cn, "err") || strings.HasSuffix(cn, "!= nil") || strings.HasSuffix(cn, "== nil")
+			isErr := isErrCond(cn)
 			c2 := c
 			if !isErr {
 				c2.guards = append(append([]string{}, c.guards...), cn)
@@ -369,7 +538,7 @@ func (x *extractor) extract() ([]attrRow, []string) {
 			if y.Else != nil {
 				c3 := c
 				if !isErr {
-					c3.guards = append(append([]string{}, c.guards...), "!"+cn)
+					c3.guards = append(append([]string{}, c.guards...), negate(cn))
 				}
 				walk(y.Else, c3)
 			}
@@ -479,6 +648,15 @@ func (x *extractor) classify(row *attrRow, e ast.Expr, problems *[]string) {
 					row.Src = "const:" + atv.Value.ExactString()
 					if o := core.ObjOf(x.info, arg); o != nil {
 						row.Src = "const:" + o.Name()
+						// a numeric constant of go-upf itself is a value, not a name of the netlink namespace:
+						// describe it by its bits, exactly like `x := uint16(29); AttrU16(x)`
+						if x.p.IsOwn(o.Pkg()) && kind != "bytes" && kind != "string" {
+							if u, exact := constant.Uint64Val(constant.ToInt(atv.Value)); exact {
+								w, _ := strconv.Atoi(kind[1:])
+								row.width = w
+								row.Src = core.ConstBits(u, w).String()
+							}
+						}
 					}
 					return
 				}
